@@ -381,6 +381,16 @@ operation that computes that functor. -/
 theorem op_table_sound :
     (∀ r ∈ Gen.opTable, mpiOpFunctor r.2 = some r.1) ∧ (Gen.opTable.map (·.1)).Nodup := by decide
 
+/-- **builtin_ops_defined.**  Every `ComposeMPITraits` line makes its type `is_intrinsic`, and `Generic_MPI_Op` then
+hands the four named functors on that type to the predefined operation of `Gen.opTable`: that operation must be one
+the MPI standard defines on the line's datatype (otherwise every `sum`/`prod`/`min`/`max` of that element type is
+erroneous, `MPI_ERR_OP`).  `Min`/`Max` on a complex type are not instantiable (no `operator<`), so those pairs are
+exempt.  A line for `bool` (`MPI_CXX_BOOL`, a logical type) breaks this. -/
+theorem builtin_ops_defined :
+    ∀ r ∈ Gen.traitsTable, ∀ o ∈ Gen.opTable,
+      (mpiOpDefinedOn o.2 r.2 || ((o.1 == "Min" || o.1 == "Max") && mpiTypeClass r.2 == some "complex")) = true := by
+  decide
+
 /-- **user_op_registration.**  User functors are registered with `commute = false`, and the callback computes
 `inout[i] = func(in[i], inout[i])` — the operand order MPI prescribes (`in` holds the lower ranks' partial result). -/
 theorem user_op_registration :
